@@ -115,25 +115,25 @@ class Loops:
             keys = V.dkeys(d)
             ln = simp(z3.Length(keys))
             if z3.is_int_value(ln):
-                return vals.valseq([V.TupleV(vals.valseq([simp(keys[j]), simp(z3.Select(V.dmap(d), V.s(keys[j])))]))
+                return vals.valseq([V.TupleV(vals.valseq([simp(keys[j]), simp(z3.Select(V.dmap(d), vals.ks(simp(keys[j]))))]))
                                     for j in range(ln.as_long())])
             r = it.fresh('items', vals.SeqVal)
             i = z3.Int('i!di')
             it.assume_axiom(z3.Length(r) == z3.Length(keys))
             it.assume_axiom(z3.ForAll([i], z3.Implies(z3.And(0 <= i, i < z3.Length(r)),
-                                                r[i] == V.TupleV(vals.valseq([keys[i], z3.Select(V.dmap(d), V.s(keys[i]))])))))
+                                                r[i] == V.TupleV(vals.valseq([keys[i], z3.Select(V.dmap(d), vals.ks(keys[i]))])))))
             return r
         if v.kind == 'dictvalues':
             d = v.data.t
             keys = V.dkeys(d)
             ln = simp(z3.Length(keys))
             if z3.is_int_value(ln):
-                return vals.valseq([simp(z3.Select(V.dmap(d), V.s(keys[j]))) for j in range(ln.as_long())])
+                return vals.valseq([simp(z3.Select(V.dmap(d), vals.ks(simp(keys[j])))) for j in range(ln.as_long())])
             r = it.fresh('dvals', vals.SeqVal)
             i = z3.Int('i!dv')
             it.assume_axiom(z3.Length(r) == z3.Length(keys))
             it.assume_axiom(z3.ForAll([i], z3.Implies(z3.And(0 <= i, i < z3.Length(r)),
-                                                r[i] == z3.Select(V.dmap(d), V.s(keys[i])))))
+                                                r[i] == z3.Select(V.dmap(d), vals.ks(keys[i])))))
             return r
         if v.kind == 'genexp':
             res = self.comprehension(it, v.data[0], 'list', v.data[1])
@@ -168,11 +168,11 @@ class Loops:
                 if vals._c(d) == 'DictV':
                     it.assume_axiom(vals.wf_known(d))
                 keys = V.dkeys(d)
-                return simp(z3.Length(keys)), (lambda i: V.TupleV(vals.valseq([keys[i], z3.Select(V.dmap(d), V.s(keys[i]))])))
+                return simp(z3.Length(keys)), (lambda i: V.TupleV(vals.valseq([keys[i], z3.Select(V.dmap(d), vals.ks(keys[i]))])))
             if v.kind == 'dictvalues':
                 d = v.data.t
                 keys = V.dkeys(d)
-                return simp(z3.Length(keys)), (lambda i: z3.Select(V.dmap(d), V.s(keys[i])))
+                return simp(z3.Length(keys)), (lambda i: z3.Select(V.dmap(d), vals.ks(keys[i])))
             if v.kind == 'range' and len(v.data) <= 2:
                 a = [O.ival(x.t) for x in v.data]
                 lo, hi = (z3.IntVal(0), a[0]) if len(a) == 1 else (a[0], a[1])
@@ -183,6 +183,9 @@ class Loops:
     def elem_types(self, v):
         """static type info of the elements python iteration over v yields"""
         if isinstance(v, SV):
+            w = self.world
+            if v.ty in w.classes and w.classes[v.ty].get('iter_field'):
+                return O._elem_type(w.field_type(v.ty, w.classes[v.ty]['iter_field']))
             return O._elem_type(v.ty)
         if isinstance(v, PV):
             if v.kind == 'zip':
@@ -206,7 +209,7 @@ class Loops:
                 self.world.ops.outcome(it, [(z3.Not(O._hashable(kv[0].t)), 'TypeError'), (O._hashable(kv[0].t), None)], 'dict key')
                 if it.feasible(z3.Not(V.is_StrV(kv[0].t))):
                     raise Unsupported('dict with non-string key (A4)')
-                cur = O.dict_store(cur, V.s(kv[0].t), kv[1].t)
+                cur = O.dict_store(cur, kv[0].t, kv[1].t)
             return SV(simp(cur))
         # symbolic length: each element must be a 2-sequence (else TypeError / ValueError)
         i = z3.Int('i!dp')
@@ -333,8 +336,9 @@ class Loops:
                     if r is not None:
                         out.append(r)
                 return self.build(it, kind, out, isdict)
-            if gen.ifs:
-                raise Unsupported(f'filtered comprehension over a sequence of symbolic length@{node.lineno}')
+            filtered = bool(gen.ifs)
+            if filtered and (isdict or kind not in ('list', 'tuple')):
+                raise Unsupported(f'filtered dict/set comprehension over a sequence of symbolic length@{node.lineno}')
             idx = it.fresh('ci', IntS)
             rng = z3.And(0 <= idx, idx < ln)
             it.pc.append(rng)
@@ -350,7 +354,8 @@ class Loops:
                 # body infeasible for every index: the sequence must be empty
                 it.assume(ln == 0)
                 return self.build(it, kind, [], isdict)
-            normal = [o for o in outcomes if o[0] == 'val']
+            normal = [o for o in outcomes if o[0] == 'val' and o[1] is not None]
+            skipped = [o for o in outcomes if o[0] == 'val' and o[1] is None]
             excs = [o for o in outcomes if o[0] == 'exc']
             k = it.choose([z3.BoolVal(True)] * (1 + len(excs)), f'comp@{node.lineno}')
             if k > 0:
@@ -361,6 +366,24 @@ class Loops:
                 for p in terms[:-1]:
                     it.assume(p)
                 raise PyRaise(SV(terms[-1], excv.ty))
+            if filtered:
+                # the result holds exactly the mapped elements that pass the filter (their order is kept by
+                # python; only membership and the length bound are stated here)
+                b = z3.Int('b!cf%d' % it.counter)
+                x = z3.Const('x!cf%d' % it.counter, Val)
+                r = it.fresh('compf', vals.SeqVal)
+                disj = []
+                for _, v, pcs, fresh in normal:
+                    terms = self.skolemize(it, pcs + [it.as_val(v)], fresh, idx, b)
+                    disj.append(z3.And(*terms[:-1], x == terms[-1]))
+                member = z3.Exists([b], z3.And(0 <= b, b < ln, z3.Or(*disj))) if disj else z3.BoolVal(False)
+                it.assume(z3.ForAll([x], z3.Contains(r, z3.Unit(x)) == member))
+                it.assume(z3.Length(r) <= ln)
+                tys = {v.ty for _, v, _, _ in normal if isinstance(v, SV)}
+                rty = list(tys)[0] if len(tys) == 1 and None not in tys else None
+                if kind == 'tuple':
+                    return SV(V.TupleV(r), f'tuple:{rty}' if rty else None)
+                return SV(V.ListV(r), f'list:{rty}' if rty else None)
             if not normal:
                 it.assume(ln == 0)
                 return self.build(it, kind, [], isdict)
@@ -408,7 +431,7 @@ class Loops:
                 if it.feasible(z3.Not(V.is_StrV(kx.t))):
                     self.world.ops.outcome(it, [(z3.Not(O._hashable(kx.t)), 'TypeError'), (O._hashable(kx.t), None)], 'dict key')
                     raise Unsupported('dict with non-string key (A4)')
-                cur = O.dict_store(cur, V.s(kx.t), it.as_val(vx))
+                cur = O.dict_store(cur, kx.t, it.as_val(vx))
             tys = {(i[1].ty if isdict else None) for i in out}
             ty = f'dict:{list(tys)[0]}' if len(tys) == 1 and None not in tys else None
             return SV(simp(cur), ty)
@@ -548,7 +571,19 @@ class Loops:
         spec = self.loop_spec(it, s, 'for')
         if spec is None:
             raise Unsupported(f'for loop over a sequence of symbolic length needs an invariant@{s.lineno}')
-        self.invariant_loop(it, s, spec, seq, ety)
+        # iteration over the keys of a dict / the elements of a set: the invariant may speak about the set of
+        # keys already visited (`done__`), see invariant_loop
+        keyinfo = None
+        if isinstance(itv, PV) and itv.kind == 'dictitems':
+            d = it.refine(itv.data.t)
+            keyinfo = (V.dhas(d), lambda el: V.titems(el)[0])
+        elif isinstance(itv, SV):
+            t = it.refine(itv.t)
+            if vals._c(t) == 'DictV':
+                keyinfo = (t.arg(1), lambda el: el)
+            elif vals._c(t) == 'SetV':
+                keyinfo = (t.arg(0), lambda el: el)
+        self.invariant_loop(it, s, spec, seq, ety, keyinfo)
 
     def modified(self, body):
         names, fields = set(), set()
@@ -622,18 +657,33 @@ class Loops:
         for nme, text in spec['invariant'].items():
             it.assume(self.world.clause(it, text, extra_env, None, 'assume'))
 
-    def invariant_loop(self, it, s, spec, seq, ety):
+    def invariant_loop(self, it, s, spec, seq, ety, keyinfo=None):
         label = spec['label']
         names, fields = self.modified(s.body)
         tnames, _ = self.modified([ast.Assign(targets=[s.target], value=ast.Constant(value=None))])
         seqv = SV(V.TupleV(seq))
-        self.check_inv(it, spec, 'entry', {'i__': SV(const(0)), 'seq__': seqv}, label)
+        env0 = {'i__': SV(const(0)), 'seq__': seqv}
+        if keyinfo is not None:
+            env0['done__'] = SV(V.SetV(vals.EMPTY_HAS), 'set[obj]')
+        self.check_inv(it, spec, 'entry', env0, label)
         k = it.choose([z3.BoolVal(True), z3.BoolVal(True)], f'loop@{s.lineno}')
         self.havoc(it, names, fields, spec)
         if k == 0:
             i = it.fresh('li', IntS)
             it.assume(z3.And(0 <= i, i < z3.Length(seq)))
             env = {'i__': SV(V.IntV(i)), 'seq__': seqv}
+            if keyinfo is not None:
+                # keys visited before this iteration: some subset of the key set not containing the current key
+                has, keyof = keyinfo
+                D = it.fresh('done', z3.ArraySort(StrS, BoolS))
+                kx = z3.String('k!done')
+                cur = it.refine(keyof(seq[i]))
+                curk = vals.ks(it.split_kind(SV(cur)).t)
+                it.assume_axiom(vals.key_axiom(it.refine(cur)))
+                it.assume(z3.ForAll([kx], z3.Implies(z3.Select(D, kx), z3.Select(has, kx))))
+                it.assume(z3.And(z3.Not(z3.Select(D, curk)), z3.Select(has, curk)))
+                env['done__'] = SV(V.SetV(D), 'set[obj]')
+                done_next = SV(V.SetV(z3.Store(D, curk, z3.BoolVal(True))), 'set[obj]')
             self.assume_inv(it, spec, env)
             self.world.element_kind(it, seq[i], ety)
             it.assign(s.target, SV(seq[i], ety))
@@ -646,9 +696,14 @@ class Loops:
                 # leaves the loop without else; the state is the havoc'd one plus the body's effects
                 return
             self.check_frame(it, heap_before, fields, spec, s)
-            self.check_inv(it, spec, 'preserved', {'i__': SV(V.IntV(i + 1)), 'seq__': seqv}, label)
+            env1 = {'i__': SV(V.IntV(i + 1)), 'seq__': seqv}
+            if keyinfo is not None:
+                env1['done__'] = done_next
+            self.check_inv(it, spec, 'preserved', env1, label)
             raise PathEnd('loop iteration checked')
         env = {'i__': SV(V.IntV(z3.Length(seq))), 'seq__': seqv}
+        if keyinfo is not None:
+            env['done__'] = SV(V.SetV(keyinfo[0]), 'set[obj]')
         self.assume_inv(it, spec, env)
         for nme in tnames:
             it.env.pop(nme, None)
